@@ -91,6 +91,13 @@ def _run_case(ctx, case) -> F.Outcome:
             return c12_pipeline.run_case(ctx, case)
         finally:
             H.freeze(H.rotate(_DAYS, ctx.seed)[0])
+    if case[0] == "moved":
+        from mc.checks import c12_moved
+
+        try:
+            return c12_moved.run_case(ctx, case)
+        finally:
+            H.freeze(H.rotate(_DAYS, ctx.seed)[0])
     if case[0] == "single":
         _, k, p, ident, widx, tail = case
         page = M.APage(title=[M.W("t")], top_blocks=[[_mk_item(ctx.seed, k, p, ident, widx, tail)]])
@@ -145,12 +152,17 @@ def _cases(ctx):
         cases += c12_pipeline.cases(ctx)
     except ImportError:
         pass
+    from mc.checks import c12_moved
+
+    cases += c12_moved.cases(ctx)
     return cases
 
 
 def _sample(ctx, case):
     if case[0] == "pipe":
         return {"pipeline_case": case}
+    if case[0] == "moved":
+        return {"moved_note_case": case}
     if case[0] == "single":
         _, k, p, ident, widx, tail = case
         page = M.APage(title=[M.W("t")], top_blocks=[[_mk_item(ctx.seed, k, p, ident, widx, tail)]])
@@ -185,7 +197,11 @@ def run(ctx: F.Ctx):
             "kind, ZID, body, own tags/links/properties, dates iff ZID, priority unless "
             "done/cancelled. part 2: see pipeline cases (real db create, swog.execute, "
             "refresh_zoq_file), incl. an index that went through a real create / edit / next-day reindex "
-            "history, whose emitted notes must compile back to the notes in the files. Every case is "
+            "history, whose emitted notes must compile back to the notes in the files. part 3: the text the real `note move` "
+            "writes: 6 kind/priority forms x 6 tails x 3 source header blocks (plain values; values with blanks, dashes, a URL, "
+            "backslashes, a date, a ZID; nested sections) x {no marker, x, ~} -- the destination stays a valid page and the "
+            "moved note compiles to the same kind (or the requested one), ZID, dates, priority, links, at least its former tags and "
+            "properties, and its former body once the inserted words are removed. Every case is "
             "distinct and exercises the round trip."
         ),
         "bounds": {"cases": len(cases), "pipeline_cases": n_pipe, "quick_second_words": "3 of 14" if ctx.quick else "all 14"},
